@@ -162,6 +162,12 @@ func c192(c *an.Ctx, p *an.Prog) {
 		var pendStore *an.Term
 		var storeStore *an.Term
 		for _, e := range s.Events {
+			if e.Kind == "call" && e.Fn != nil && p.InRepo(e.Fn) && e.Callee != "(*"+mainPkg+".HooksCaller).runAllHooks" {
+				r.bad = append(r.bad, "the loop calls "+shortName(e.Callee)+", whose effect on the notification queue / pending counter is outside the transition table")
+			}
+			if e.Kind == "recv" || (e.Kind == "select" && e.Res != sel) {
+				r.bad = append(r.bad, "a second channel operation inside one loop iteration")
+			}
 			if e.Kind == "call" && e.Callee == "(*"+mainPkg+".HooksCaller).runAllHooks" {
 				ran++
 			}
@@ -278,6 +284,21 @@ func c192(c *an.Ctx, p *an.Prog) {
 			min = 1
 		}
 		c.Check(len(r.bad) == 0 && r.n >= min, "C19.2", fnKey(run)+"|case="+k, p.Pos(run.Pos()), fmt.Sprintf("%d iteration paths conform to the transition table", r.n), strings.Join(uniqS(r.bad), "; ")+fmt.Sprintf(" (%d paths)", r.n))
+	}
+	// every receive from the notification channel is a case of a loop select in run (none elsewhere may swallow one)
+	{
+		var badr []string
+		nrecv := 0
+		for _, o := range p.ChanOps() {
+			if o.Kind != "recv" || !strings.Contains(o.Desc, "HooksCaller.Notify") {
+				continue
+			}
+			nrecv++
+			if o.Fn != run || !o.InSelect || !o.Blocking {
+				badr = append(badr, fmt.Sprintf("notification consumed in %s at %s outside the hooks loop's blocking select (it would never be counted in pending)", fnKey(o.Fn), p.InstrPos(o.In)))
+			}
+		}
+		c.Check(len(badr) == 0 && nrecv >= 1, "C19.2", "notify|single-consumer", p.Pos(run.Pos()), fmt.Sprintf("%d receive sites of hooks.Notify, all cases of the loop selects in run", nrecv), strings.Join(uniqS(badr), "; "))
 	}
 	// writers of pending
 	var bad []string
